@@ -8,7 +8,7 @@ FAM = Family(
     rule_text=("one case = one run of the gts binary: a generated 10-bp record (three tables with overlapping, nested, "
                "unsorted, duplicated and end-touching features on both strands; linear and circular) x a locator (selector "
                "matching 0..k features, point, range, complement range, all features; optionally one of six modifiers; bare "
-               "modifiers) x delete[-e] / insert[-e] / split / rotate / extract[-v] (GenBank and FASTA output); input and "
+               "modifiers) x delete[-e] / insert[-e] / infix[-e] / split / rotate / extract[-v] (GenBank and FASTA output); input and "
                "output are parsed with seqio, projected to residue identities and judged by Cli.tla in input coordinates"),
     assumptions=["the located regions are computed by the specification with the Resize transcription validated by C08",
                  "locators whose regions leave [0,L] are outside the quantifier and not judged"],
